@@ -14,9 +14,11 @@ MCKindSet == {"struct", "enum"}
 \* consequence a == b => same feed)
 MCTypeOptSet(k) == { [DefOpts EXCEPT !.traits = <<"PartialEq", "Hash">>] }
 MCVarOptSet(c) == { [DefVariant EXCEPT !.style = s] : s \in Styles }
+CONSTANT Narrow   \* TRUE: at most one variant wider than two fields (quick instance); FALSE: no such restriction
 MCFieldSet(c) ==
-  { [DefField EXCEPT !.hash = t, !.eq = IF t = Ignore THEN Ignore ELSE Own] : t \in Treatments }
-MCAdmissible(c) == TRUE
+  IF NVariants(c) > 0 /\ Narrow /\ ~MayWiden(c) THEN {}
+  ELSE { [DefField EXCEPT !.hash = t, !.eq = IF t = Ignore THEN Ignore ELSE Own] : t \in Treatments }
+MCAdmissible(c) == Narrow => WideOK(c)
 
 Init == BuildInit /\ run = NoRun
 
